@@ -717,7 +717,7 @@ func (env *SpecEnv) pureCall(f *types.Func, recv *Val, args []SExpr) Val {
 	}
 	rt := sig.Results().At(0).Type()
 	u.pureAxiom(pk, key, c, f)
-	return u.pureApp(pk, key, vals, rt)
+	return u.pureApp(pk, key, vals, rt, env.st)
 }
 
 // pureAxiom states the contract of a pure function about its uninterpreted function symbol:
@@ -752,9 +752,17 @@ func (u *Unit) pureAxiom(pk, key string, c *Contract, f *types.Func) {
 		vals = append(vals, v)
 	}
 	_ = names
-	res := u.pureApp(pk, key, vals, sig.Results().At(0).Type())
-	env := u.calleeEnv(newState(), nil, c, pk, sig, sig, recv, args, []Val{res})
-	env.st = u.pureState()
+	// the heap locations the function reads are universally quantified as well
+	hst := newState()
+	hst.epoch = "pure"
+	for _, rk := range u.readsKeys(c) {
+		bn := fmt.Sprintf("%s!ph", rk.key)
+		hst.heap[rk.key] = bn
+		decls = append(decls, fmt.Sprintf("(%s %s)", bn, rk.sort))
+	}
+	res := u.pureApp(pk, key, vals, sig.Results().At(0).Type(), hst)
+	env := u.calleeEnv(hst, nil, c, pk, sig, sig, recv, args, []Val{res})
+	nkeys := len(hst.heap)
 	var pre, post, guards []string
 	for _, v := range vals {
 		if inv := u.typeInv(v); inv != "true" {
@@ -767,6 +775,13 @@ func (u *Unit) pureAxiom(pk, key string, c *Contract, f *types.Func) {
 	for _, e := range c.Ensures {
 		post = append(post, env.evalBool(e.Expr))
 	}
+	if len(hst.heap) != nkeys {
+		var extra []string
+		for k := range hst.heap {
+			extra = append(extra, k)
+		}
+		panic(specErr{fmt.Sprintf("pure function %s: contract reads heap locations not listed in `reads` (have %v)", key, extra)})
+	}
 	body := sImp(sAnd(append(guards, pre...)...), sAnd(post...))
 	if len(decls) == 0 {
 		u.d.axiom(id, body)
@@ -778,21 +793,68 @@ func (u *Unit) pureAxiom(pk, key string, c *Contract, f *types.Func) {
 	}
 }
 
-// pureState: heap snapshot used when a pure function's contract mentions heap fields. Pure
-// functions must only depend on immutable state, so the entry heap is used.
-func (u *Unit) pureState() *State {
-	if u.entry != nil {
-		return u.entry
+type readKey struct{ key, sort string }
+
+// readsKeys resolves the `reads` clause (Type.field, relative to the contract's home package)
+// into heap keys.
+func (u *Unit) readsKeys(c *Contract) []readKey {
+	var out []readKey
+	home := u.eng.pkgs[c.PkgPath]
+	if c.Extern {
+		home = u.eng.pkgs[u.eng.contractHome[c]]
 	}
-	return newState()
+	for _, r := range c.Reads {
+		if strings.HasPrefix(r, "global.") {
+			name := strings.TrimPrefix(r, "global.")
+			var obj *types.Var
+			if i := strings.LastIndex(name, "."); i >= 0 {
+				if p := (&SpecEnv{u: u, home: home}).importedPkg(name[:i]); p != nil {
+					obj, _ = p.Scope().Lookup(name[i+1:]).(*types.Var)
+				}
+			} else if home != nil {
+				obj, _ = home.Types.Scope().Lookup(name).(*types.Var)
+			}
+			if obj == nil {
+				panic(specErr{"reads " + r + ": unknown global"})
+			}
+			out = append(out, readKey{u.globalKey(obj), u.sortOf(obj.Type())})
+			continue
+		}
+		i := strings.LastIndex(r, ".")
+		if i < 0 {
+			panic(specErr{"reads " + r + ": want Type.field"})
+		}
+		ty, so := u.resolveType(home, &STypeExpr{Kind: "name", Name: r[:i]})
+		s, ok := ty.Underlying().(*types.Struct)
+		if !ok {
+			panic(specErr{"reads " + r + ": not a struct type"})
+		}
+		found := false
+		for j := 0; j < s.NumFields(); j++ {
+			if s.Field(j).Name() == r[i+1:] {
+				out = append(out, readKey{u.heapKeyField(so, r[i+1:]), "(Array Int " + u.sortOf(s.Field(j).Type()) + ")"})
+				found = true
+			}
+		}
+		if !found {
+			panic(specErr{"reads " + r + ": no such field"})
+		}
+	}
+	return out
 }
 
-func (u *Unit) pureApp(pk, key string, vals []Val, rt types.Type) Val {
+func (u *Unit) pureApp(pk, key string, vals []Val, rt types.Type, st *State) Val {
 	name := "P_" + mangle(lastSeg(pk)) + "_" + mangle(key)
 	var sorts, ts []string
 	for _, v := range vals {
 		sorts = append(sorts, v.So)
 		ts = append(ts, v.T)
+	}
+	if c := u.eng.lookupContract(pk, key); c != nil {
+		for _, rk := range u.readsKeys(c) {
+			sorts = append(sorts, rk.sort)
+			ts = append(ts, u.heapGet(st, rk.key, rk.sort))
+		}
 	}
 	rs := u.sortOf(rt)
 	u.d.fun(name, sorts, rs)
